@@ -190,12 +190,12 @@ class SparselyBin(Factory, Container):
             )
             out.entries = self.entries + other.entries
             out.contentType = self.contentType
-            out.bins = self.bins.copy()
+            out.bins = {}
+            for i, v in self.bins.items():
+                out.bins[i] = v + other.bins[i] if i in other.bins else v.copy()
             for i, v in other.bins.items():
-                if i in out.bins:
-                    out.bins[i] = out.bins[i] + v
-                else:
-                    out.bins[i] = v
+                if i not in out.bins:
+                    out.bins[i] = v.copy()
             return out.specialize()
 
         raise ContainerException(f"cannot add {self.name} and {other.name}")
